@@ -86,6 +86,11 @@ def describe_fn(obj):
     }
 
 
+def innermost(f):
+    """the undecorated function (follows __wrapped__ as far as it goes; a function that is not decorated is returned as is)"""
+    return unwrap_all(f)[-1]
+
+
 def unwrap_all(f):
     seen = []
     while f is not None and f not in seen:
